@@ -56,8 +56,20 @@ func mkEvent(g G, seq int, verb string, tagged bool, long bool) *evLine {
 	exp.Args = args
 	var w strings.Builder
 	if tagged {
-		exp.Tags = map[string]string{"seq": fmt.Sprint(seq), "k": "v w"}
-		w.WriteString("@seq=" + fmt.Sprint(seq) + ";k=v\\sw ")
+		switch g.W(6, 1, 1, 1) {
+		case 0:
+			exp.Tags = map[string]string{"seq": fmt.Sprint(seq), "k": "v w"}
+			w.WriteString("@seq=" + fmt.Sprint(seq) + ";k=v\\sw ")
+		case 1: // a tag section that is present but empty
+			exp.Tags = map[string]string{}
+			w.WriteString("@ ")
+		case 2:
+			exp.Tags = map[string]string{}
+			w.WriteString("@;; ")
+		default: // a single key-only tag
+			exp.Tags = map[string]string{"solo": ""}
+			w.WriteString("@solo ")
+		}
 	}
 	w.WriteString(":u!i@h.sim " + verb + " " + strings.Join(args[:len(args)-1], " ") + " :" + payload)
 	ev.wire = w.String()
